@@ -245,8 +245,20 @@ def _link_case(case):
 
     from ..impl import err_kind, get_evaluable_architecture, graph_snapshot
 
-    tree, link, pats, relative = case
+    tree, link, pats, relative = case[:4]
+    dlink = case[4] if len(case) > 4 else None
+    logical = tree
+    if dlink:
+        # a DIRECTORY of the tree is also reachable under a second name (a symbolic link next to it or elsewhere in the tree):
+        # the scan must equal the scan of the tree in which the second name is a regular copy
+        d, newd = dlink
+        logical = dict(tree)
+        for q, v in tree.items():
+            if q == d or q.startswith(d + "/"):
+                logical[newd + q[len(d):]] = v
     with sc.write_project(tree) as proj:
+        if dlink:
+            os.symlink(proj.path(dlink[0]), proj.path(dlink[1]), target_is_directory=True)
         if link:
             os.makedirs(proj.path("_store"))
             shutil.move(proj.path(link), proj.path("_store/f0_target.py"))
@@ -264,7 +276,7 @@ def _link_case(case):
                 got = "ERR:" + err_kind(e)
         finally:
             os.chdir(cwd)
-        line = sc.scan_line("scan", base, tree, "proj", "proj", ("G", ps))
+        line = sc.scan_line("scan", base, logical, "proj", "proj", ("G", ps))
     return got, line, ps
 
 
@@ -285,12 +297,27 @@ def link_and_relative_stream(ctx, stream, n):
         if rng.random() < 0.3:
             d = rng.choice(sorted(p for p, v in tree.items() if v is None))
             pats.append("@BASE@" + ("/" + d.split("/", 1)[1] if "/" in d else ""))
-        cases.append((tree, link, pats, relative))
+        dlink = None
+        subdirs = sorted(p for p, v in tree.items() if v is None and p != "proj")
+        if subdirs and rng.random() < 0.4:
+            d = rng.choice(subdirs)
+            dn = d.split("/")[-1]
+            parent = rng.choice([d.rsplit("/", 1)[0], d.rsplit("/", 1)[0], "proj"])
+            newd = parent + "/" + rng.choice([dn + "_old", "a0" + dn, "zz" + dn, dn + "2", "old"])
+            if newd not in tree and newd + ".py" not in tree and not (newd + "/").startswith(d + "/"):
+                dlink = (d, newd)
+                nn = newd.split("/")[-1]
+                # patterns that match only one of the two names, both, or something below them
+                pats = [rng.choice(["*" + nn, "*/" + dn, "*" + nn + "*", "*/" + dn + "/*", "@BASE@/" + newd.split("/", 1)[1], "@BASE@/" + d.split("/", 1)[1], "*" + dn])] + \
+                       (pats if rng.random() < 0.3 else [])
+        cases.append((tree, link, pats, relative, dlink))
     res = pmap(_link_case, cases, ctx.jobs, chunk=10)
     ans = run_driver([r[1] for r in res])
-    for (tree, link, pats, relative), (got, line, ps), a in zip(cases, res, ans):
+    for (tree, link, pats, relative, dlink), (got, line, ps), a in zip(cases, res, ans):
         stream.evaluations += 1
         stream.count(("link " if link else "plain ") + ("relative-root" if relative else "absolute-root"))
+        if dlink:
+            stream.count("directory reachable under a second name")
         m = parse_answer(a).get("M", "?")
         stream.nontrivial.add(digest((sorted(tree), link, pats, relative)))
         if got != m:
@@ -298,7 +325,7 @@ def link_and_relative_stream(ctx, stream, n):
             what = ("modules under exclusion patterns differ from what the paths of the scanned tree demand (patterns are matched against the path of each file "
                     "and directory as it lies in the tree): " + (f"unexpectedly present {sorted(G[0] - M[0])[:5]}, unexpectedly missing {sorted(M[0] - G[0])[:5]}" if G and M else f"{got[:100]} vs {m[:100]}"))
             ctx.violations.append({"kind": "property-violation", "what": what, "files": dict(tree), "symbolic_link": link, "patterns": list(ps),
-                                   "relative_root": relative, "impl": got, "expected": m})
+                                   "relative_root": relative, "directory_link": dlink, "impl": got, "expected": m})
             if len(ctx.violations) >= 3:
                 return
 
